@@ -208,6 +208,28 @@ func c05(r *Run) {
 				r.obW(fmt.Sprintf("C05.R11:runner-completes#%d", i), "unless the lock could not be taken (someone else runs them) or no callback is registered, every path of the callback runner reaches the callbacks - a failing PollDetach does not skip the finalizer", fn, run, wit, "callbacks on every path")
 			}
 			// R5d: the invoked value is node.fn with node walking Load(closeCallbacks) -> .pre
+			{
+				// the walk ends only at the end of the chain: a callback's return value (or anything else) does not cut it short -
+				// the finalizer and the server's untrack callback are nodes of this chain
+				endOfChain := func(ifi *ssa.If, cond ssa.Value, branch bool) bool {
+					b, ok := cond.(*ssa.BinOp)
+					if !ok || (b.Op != token.EQL && b.Op != token.NEQ) {
+						return false
+					}
+					x, y := b.X, b.Y
+					if isNilConst(x) {
+						x, y = y, x
+					}
+					if !isNilConst(y) || !isPointerToNamed(x.Type(), "callbackNode") {
+						return false
+					}
+					return branch == (b.Op == token.EQL)
+				}
+				ss := &Search{Fn: fn, CutEdge: endOfChain}
+				wit := ss.Find([]Start{After(run)}, nil, true)
+				s.Visited += ss.Visited
+				r.obW(fmt.Sprintf("C05.R5:walk-is-complete#%d", i), "once started, the walk over the close callbacks leaves only at the end of the chain (node == nil): no callback's result, and nothing else, cuts it short - the finalizer and the server's untrack callback are nodes of this chain", fn, run, wit, "the only exit after an invocation is the node==nil edge")
+			}
 			r.ob(fmt.Sprintf("C05.R5:lifo-walk#%d", i), "the runner invokes node.fn for node = latest, node.pre, node.pre.pre ... (reverse registration order)", fn, run, lifoWalk(run), "callee is (*callbackNode).fn of a phi over {Load(closeCallbacks), phi.pre}", true)
 		}
 	}
